@@ -481,7 +481,7 @@ func genTextmatch(repo string, args []string) (out string, err error) {
 	}
 	// compile: the exact wrapper shape (parse with syntax.Perl; optimised matcher if non-nil; else regexp.Compile(s))
 	wantCompile := "{reSyntax, err := syntax.Parse(s, syntax.Perl);if err == nil {if optimized := compileOptimized(s, reSyntax);optimized != nil {return optimized, nil}};return regexp.Compile(s)}"
-	if got := normStmt(t.fset, comp.Body); got != wantCompile {
+	if got := normStmt(t.fset, comp.Body); got != normText(wantCompile) {
 		return "", fmt.Errorf("compile() has an unknown shape: %s", got)
 	}
 	if co.Type.Params.NumFields() != 2 {
@@ -521,7 +521,7 @@ func genTextmatch(repo string, args []string) (out string, err error) {
 		case *ast.FuncDecl:
 			if d.Recv == nil {
 				if d.Name.Name == "newInputValue" {
-					if got := normStmt(t.fset, d.Body); got != "{return inputValue{s: s, b: []byte(s)}}" {
+					if got := normStmt(t.fset, d.Body); got != normText("{return inputValue{s: s, b: []byte(s)}}") {
 						return "", fmt.Errorf("newInputValue has an unknown shape: %s", got)
 					}
 					continue
@@ -565,16 +565,26 @@ func genTextmatch(repo string, args []string) (out string, err error) {
 	return sb.String(), nil
 }
 
-// normStmt prints a node on one line with single spaces (shape comparison of tiny wrappers)
+// normStmt prints a node on one line in a canonical spacing (shape comparison of small statements)
 func normStmt(fset *token.FileSet, n ast.Node) string {
-	s := exprString(fset, n)
+	return normText(exprString(fset, n))
+}
+
+// normText canonicalises Go source text: one line, single spaces, no trailing commas of multi-line literals
+func normText(s string) string {
 	s = strings.ReplaceAll(s, "\n", ";")
 	s = strings.ReplaceAll(s, "\t", "")
+	for strings.Contains(s, "  ") {
+		s = strings.ReplaceAll(s, "  ", " ")
+	}
 	for strings.Contains(s, ";;") {
 		s = strings.ReplaceAll(s, ";;", ";")
 	}
 	s = strings.ReplaceAll(s, "; ", ";")
 	s = strings.ReplaceAll(s, "{;", "{")
+	s = strings.ReplaceAll(s, ",;}", "}")
 	s = strings.ReplaceAll(s, ";}", "}")
+	s = strings.ReplaceAll(s, ",;", ", ")
+	s = strings.ReplaceAll(s, ": ", ":")
 	return s
 }
